@@ -44,3 +44,6 @@ def run(ctx):
             ctx.fail(r["fail"].split("/")[0], "state monitor '%s' failed: %s" % (r["fail"], str(r.get("info"))[:600]), case=r)
     hdr = "From Coq Require Import List NArith ZArith String.\nImport ListNotations.\nOpen Scope nat_scope."
     ctx.model("Run.RunC08", recs, header=hdr)
+    # what a closed connection reports when a state update is in flight (child processes, real sockets)
+    import props.C09 as c09
+    c09.run(ctx, test="^TestVerifC08Closed$", name="C08")
